@@ -173,6 +173,17 @@ func withTimeout(d time.Duration, f func() evalObs) (evalObs, bool) {
 	}
 }
 
+// endlessTestString: inputs of the compiler / parser test tables that are endless loops (`for { x := 42 }`,
+// `for true { ... }`, `for { 42 continue 43 }`): they are never meant to be RUN; a run abandoned after its time
+// limit keeps going in its goroutine, and the last one pushes a value per iteration, so the harness grew by
+// gigabytes for as long as it lived (13 GB in a thorough run).  They are compiled and checked statically
+// everywhere else; only the commands that execute the strings skip them.
+var endlessRe = regexp.MustCompile(`^\s*for\s*(true\s*)?\{`)
+
+func endlessTestString(s string) bool {
+	return endlessRe.MatchString(s) && !strings.Contains(s, "break") && !strings.Contains(s, "return")
+}
+
 func testTableStrings() []string {
 	files, _ := filepath.Glob("/repo/*_test.go")
 	seen := map[string]bool{}
@@ -242,6 +253,10 @@ func cmdC02Diff(seed uint64, n int, dir string) {
 	// (1) every input string of the repository's test tables
 	for _, s := range testTableStrings() {
 		if strings.Contains(s, "time.Sleep") || strings.Contains(s, "rand.") || strings.Contains(s, "os.") || strings.Contains(s, "time.Now") {
+			continue
+		}
+		if endlessTestString(s) {
+			st.Histogram["test-table string is an endless loop (not run)"]++
 			continue
 		}
 		src := s
